@@ -94,6 +94,7 @@ void walk(Case& c, It b, It e, const std::vector<const int*>& flat, bool backJum
   std::vector<It> refs;
   {
     c.op("forward-pass");
+      c.checking("position");
     It it = b;
     size_t i = 0;
     for (; i <= n && !c.bad; ++i) {
@@ -110,6 +111,7 @@ void walk(Case& c, It b, It e, const std::vector<const int*>& flat, bool backJum
   if constexpr (F::bidir) {
     if (!c.bad && n > 0) {
       c.op("backward-pass");
+      c.checking("position");
       It it = e;
       for (size_t i = n; i > 0 && !c.bad;) {
         --it;
@@ -127,9 +129,11 @@ void walk(Case& c, It b, It e, const std::vector<const int*>& flat, bool backJum
     if (x < 15 && p < n) {
       if (rng.below(2)) {
         c.op("pre-increment");
+      c.checking("position");
         ++it;
       } else {
         c.op("post-increment");
+      c.checking("position");
         // (TwoLevelIterator.h: it++ returns the forward base class, so only the element is compared)
         auto old = it++;
         ++c.resultChecks;
@@ -141,9 +145,11 @@ void walk(Case& c, It b, It e, const std::vector<const int*>& flat, bool backJum
       if constexpr (F::bidir) {
         if (rng.below(2)) {
           c.op("pre-decrement");
+      c.checking("position");
           --it;
         } else {
           c.op("post-decrement");
+      c.checking("position");
           auto old = it--;
           ++c.resultChecks;
           if (!(old == refs[p]))
@@ -161,6 +167,7 @@ void walk(Case& c, It b, It e, const std::vector<const int*>& flat, bool backJum
         k = (long)rng.below(n - p + 1);
       c.op(k < 0 ? "advance-backward" : "advance-forward", k, NOARG,
            k < -1 ? "backward-jump" : k == -1 ? "backward-step" : "forward-jump");
+      c.checking("position");
       std::advance(it, k);
       p = (size_t)((long)p + k);
     } else if (x < 58 && F::jumps) {
@@ -168,9 +175,11 @@ void walk(Case& c, It b, It e, const std::vector<const int*>& flat, bool backJum
         size_t k = rng.below(n - p + 1);
         if (rng.below(2)) {
           c.op("plus-assign", (long)k, NOARG, "forward-jump");
+      c.checking("position");
           it += (ptrdiff_t)k;
         } else {
           c.op("plus", (long)k, NOARG, "forward-jump");
+      c.checking("position");
           it = it + (ptrdiff_t)k;
         }
         p += k;
@@ -181,9 +190,11 @@ void walk(Case& c, It b, It e, const std::vector<const int*>& flat, bool backJum
         size_t k   = 1 + rng.below(lim);
         if (rng.below(2)) {
           c.op("minus-assign", (long)k, NOARG, k > 1 ? "backward-jump" : "backward-step");
+      c.checking("position");
           it -= (ptrdiff_t)k;
         } else {
           c.op("minus", (long)k, NOARG, k > 1 ? "backward-jump" : "backward-step");
+      c.checking("position");
           it = it - (ptrdiff_t)k;
         }
         p -= k;
@@ -192,6 +203,7 @@ void walk(Case& c, It b, It e, const std::vector<const int*>& flat, bool backJum
       if constexpr (F::jumps) {
         size_t k = rng.below(n - p);
         c.op("subscript", (long)k);
+      c.checking("position");
         ++c.resultChecks;
         if (!((it + (ptrdiff_t)k) == refs[p + k]))
           c.fail("plus-offset-position", J().kv("position", (uint64_t)p).kv("offset", (uint64_t)k));
@@ -208,6 +220,7 @@ void walk(Case& c, It b, It e, const std::vector<const int*>& flat, bool backJum
     } else if (x < 90) {
       // distance from begin (never negative: fine for every flavour)
       c.op("distance-from-begin");
+      c.checking("position");
       c.eq("distance", (long)std::distance(b, it), (long)p);
     } else if (F::diff) {
       if constexpr (F::diff) {
@@ -216,12 +229,14 @@ void walk(Case& c, It b, It e, const std::vector<const int*>& flat, bool backJum
         for (size_t i = 0; i < q; ++i)
           ++it2;
         c.op("difference-and-less", (long)q);
+      c.checking("position");
         c.eq("difference", (long)(it2 - it), (long)q - (long)p);
         c.eq("less", it < it2, p < q);
         c.eq("less-equal", it <= it2, p <= q);
       }
     } else {
       c.op("copy-and-compare");
+      c.checking("position");
       It cp(it);
       c.eq("copy-equal", cp == it, true);
       c.eq("copy-not-unequal", cp != it, false);
@@ -344,7 +359,7 @@ void run_TwoLevelIterator(Case& c) {
 
 void run_TwoLevelIteratorA(Case& c) {
   // forward-only outer iterators with a bidirectional two-level iterator: rare variant
-  bool fwdOuter    = c.rng.below(32) == 0;
+  bool fwdOuter    = c.rng.below(128) == 0;
   unsigned shape   = fwdOuter ? 6 : (unsigned)c.rng.below(6);
   unsigned tag     = fwdOuter ? (unsigned)c.rng.below(2) : (unsigned)c.rng.below(3);
   bool constOuter  = c.rng.below(3) == 0;
